@@ -6,6 +6,9 @@ cd "$here/lean"
 targets=""
 for p in $(cat "$here/READY"); do
   n=$(echo "$p" | tr 'A-Z' 'a-z')
-  targets="$targets PoxModel.Properties.$p drv_$n"
+  for f in PoxModel/Properties/${p}*.lean; do
+    targets="$targets PoxModel.Properties.$(basename "$f" .lean)"
+  done
+  targets="$targets drv_$n"
 done
 lake build $targets
